@@ -1,10 +1,10 @@
 package cluster
 
 import (
-	"sync"
 	"fmt"
 	"path/filepath"
 	"strings"
+	"sync"
 	"time"
 
 	"github.com/superfly/litefs"
@@ -44,8 +44,8 @@ type CNode struct {
 type Cluster struct {
 	nodeMu sync.RWMutex // guards CNode.Node / CNode.Up against observer goroutines
 	Dir    string
-	Svc   *lease.Service
-	Nodes []*CNode
+	Svc    *lease.Service
+	Nodes  []*CNode
 }
 
 // New creates a cluster description (nodes are started with Start).
